@@ -95,4 +95,71 @@ theorem sendEnc_first_block (F : Perm) (s : Strobe) (d : Bytes) :
     simp only [duplex, List.append_nil]
     rw [List.take_of_length_le (by rw [hlen, List.length_take]; omega), hblock]
 
+/-! ### beyond the first block: payloads with a common prefix of whole blocks -/
+
+/-- the position after a duplex call: bytes are counted modulo the rate (`run_f` resets it) -/
+theorem duplex_pos (F : Perm) (m : Mode) (s : Strobe) (d : Bytes) (hs : s.pos < rate) :
+    (duplex F m s d).1.pos = (s.pos + d.length) % rate := by
+  induction d generalizing s with
+  | nil => simp only [duplex, List.length_nil, Nat.add_zero]; exact (Nat.mod_eq_of_lt hs).symm
+  | cons b bs ih =>
+    simp only [duplex, List.length_cons]
+    have hstep : (stepByte F m s b).1.pos = (s.pos + 1) % rate ∧ (stepByte F m s b).1.pos < rate := by
+      unfold stepByte
+      simp only
+      by_cases h : s.pos + 1 = rate
+      · rw [if_pos h]
+        refine ⟨?_, (by show 0 < rate; decide)⟩
+        show 0 = _
+        rw [h, Nat.mod_self]
+      · rw [if_neg h]
+        have : s.pos + 1 < rate := by omega
+        exact ⟨(Nat.mod_eq_of_lt this).symm, this⟩
+    rw [ih _ hstep.2, hstep.1]
+    rw [Nat.mod_add_mod]
+    congr 1
+    omega
+
+/-- a block that starts at position 0 is `data ⊕ state` on its first `rate` bytes -/
+theorem duplex_first_block (F : Perm) (s0 : Strobe) (hpos : s0.pos = 0) (d : Bytes) :
+    (duplex F mAbsorbAndSet s0 d).2.take rate = xorKs s0.st 0 (d.take rate) := by
+  rw [show duplex F mAbsorbAndSet s0 d = duplex F mAbsorbAndSet s0 (d.take rate ++ d.drop rate) from by
+    rw [List.take_append_drop], duplex_append]
+  simp only
+  have hlen : (duplex F mAbsorbAndSet s0 (d.take rate)).2.length = (d.take rate).length := duplex_length F _ _ _
+  have hblock := duplex_absorbAndSet_block F s0 (d.take rate) (by rw [hpos, List.length_take]; omega)
+  rw [hpos] at hblock
+  by_cases hd : rate ≤ d.length
+  · rw [List.take_append_of_le_length (by rw [hlen, List.length_take]; omega)]
+    rw [List.take_of_length_le (by rw [hlen, List.length_take]; omega), hblock]
+  · have hdrop : d.drop rate = [] := List.drop_of_length_le (by omega)
+    rw [hdrop]
+    simp only [duplex, List.append_nil]
+    rw [List.take_of_length_le (by rw [hlen, List.length_take]; omega), hblock]
+
+/-- **`send_enc` after a common prefix of whole blocks.** If two plaintexts agree on their first
+`c.length` bytes and `c.length` is a multiple of the rate, the two ciphertexts agree on those bytes,
+and on the NEXT block each is `plaintext ⊕ ks` for one and the same keystream `ks` (the state after
+the common prefix) - for every permutation `F`. -/
+theorem sendEnc_common_prefix (F : Perm) (s : Strobe) (c d1 d2 : Bytes) (hc : c.length % rate = 0) :
+    (sendEnc F s (c ++ d1)).2.take c.length = (sendEnc F s (c ++ d2)).2.take c.length ∧
+    ∃ ks : Bytes,
+      ((sendEnc F s (c ++ d1)).2.drop c.length).take rate = xorKs ks 0 (d1.take rate) ∧
+      ((sendEnc F s (c ++ d2)).2.drop c.length).take rate = xorKs ks 0 (d2.take rate) := by
+  unfold sendEnc operate
+  simp only
+  generalize hs0 : beginOp F (tFlag s false 0x0E).1 (tFlag s false 0x0E).2 true = s0
+  have hpos : s0.pos = 0 := by rw [← hs0]; exact beginOp_force_pos F _ _
+  have hlen : (duplex F mAbsorbAndSet s0 c).2.length = c.length := duplex_length F _ _ _
+  have hpos' : (duplex F mAbsorbAndSet s0 c).1.pos = 0 := by
+    rw [duplex_pos F _ _ _ (by rw [hpos]; decide), hpos, Nat.zero_add, hc]
+  rw [duplex_append, duplex_append]
+  simp only
+  refine ⟨?_, (duplex F mAbsorbAndSet s0 c).1.st, ?_, ?_⟩
+  · rw [List.take_append_of_le_length (by omega), List.take_append_of_le_length (by omega)]
+  · rw [← hlen, List.drop_left]
+    exact duplex_first_block F _ hpos' d1
+  · rw [← hlen, List.drop_left]
+    exact duplex_first_block F _ hpos' d2
+
 end StarModel.Strobe
